@@ -149,7 +149,7 @@ SAppId(c) ==
 \* Dial(id) on the client: joined by the broker of this session to the Accept of the same id
 CDial(k) ==
   LET c == call[k].conn IN
-  /\ call[k].st = "replied" /\ cph[c] = 4
+  /\ call[k].st = "replied" /\ (cph[c] = 4 \/ c \in draining)     \* (a call under way may still complete while Close waits for its Quit reply)
   /\ \E a \in acc : /\ a[1] = c /\ a[2] = call[k].id
                     /\ call' = [call EXCEPT ![k].st = "ok", ![k].bound = a[3]]
                     /\ acc' = acc \ {a}
@@ -267,6 +267,7 @@ TypeOK == /\ \A c \in Conns : cph[c] \in 0..5 /\ sph[c] \in 0..4 /\ Len(synq[c])
           /\ \A k \in Calls : call[k].st \in {"idle", "sent", "made", "replied", "ok", "err"}
 
 MCKind == [a |-> "ok", b |-> "ok", bad |-> "fail", zz |-> "cunknown", so |-> "sunknown"]
+MCKindTrace == [a |-> "ok", b |-> "ok", c |-> "ok", bad |-> "fail", zz |-> "cunknown", so |-> "sunknown"]
 MCKindSmall == [a |-> "ok", bad |-> "fail", zz |-> "cunknown", so |-> "sunknown"]
 
 \* every call is answered (ok or error), whatever else happens
